@@ -181,6 +181,22 @@ func scripted() []script {
 			{K: "ConvertDenom", T: 1, A: 100, B: 101, Src: 1, Tgt: 0, X: 50},
 		}},
 		{"C04 C08", "zero amounts through every entry point", spi, zeroOps()},
+		{"C08 C04", "a module-owned pair whose denom is a case variant of the native coin's (fx): conversions both ways, bridging", spfx("fx"), caseVariantOps()},
+		{"C08", "a module-owned pair whose denom is a case variant of the native coin's (Fx)", spfx("Fx"), caseVariantOps()},
+		{"C08 C04", "convert-denom to ANOTHER account while the erc20 module holds the target denom (escrow / parked alias)", sp, []Op{
+			{K: "SendToFx", C: 1, T: 1, A: 100, X: 3000},
+			{K: "SendToFx", C: 1, T: 1, A: 102, X: 2000},
+			{K: "ConvertCoin", T: 1, A: 102, B: 102, X: 1500}, // the module escrows base coins
+			{K: "BridgeCallMsg", C: 1, A: 100, B: 100, Toks: [][2]int64{{1, 400}}},
+			{K: "BridgeCallResult", C: 1, ID: 1, Flag: false}, // older-rule refund: the bridge denom is parked in the erc20 module
+			{K: "ConvertDenom", T: 1, A: 100, B: 101, Src: 0, Tgt: 1, X: 300}, // base -> alias, paid to 101
+			{K: "ConvertDenom", T: 1, A: 101, B: 103, Src: 1, Tgt: 0, X: 120}, // alias -> base, paid to 103 (the module holds 1500 base in escrow)
+			{K: "ConvertDenom", T: 1, A: 101, B: 101, Src: 1, Tgt: 0, X: 30},
+			{K: "ConvertERC20", T: 2, A: 100, B: 100, X: 2000},
+			{K: "ConvertDenom", T: 2, A: 100, B: 101, Src: 0, Tgt: 1, X: 500}, // externally-owned: base -> alias to 101
+			{K: "ConvertDenom", T: 2, A: 101, B: 102, Src: 1, Tgt: 0, X: 200}, // and back to 102 (the module holds the 500 base parked)
+			{K: "ConvertERC20", T: 1, A: 102, B: 102, X: 1500}, // the last holder redeems the whole supply
+		}},
 		{"C04", "IBC: FX cannot leave over IBC through BaseCoinToIBCCoin (C04-4); alias vouchers cannot be received", spi, []Op{
 			{K: "SendToFx", C: 1, T: 0, A: 100, X: 300, Tgt: 2},
 			{K: "ConvertCoin", T: 0, A: 100, B: 100, X: 1000},
@@ -254,6 +270,28 @@ func parkedOps() []Op {
 		}
 	}
 	return append(ops, Op{K: "ExecParked", C: 1}, Op{K: "SendToExternal", C: 1, T: 1, A: 100, X: 990, Y: 10})
+}
+
+func spfx(denom string) Spec {
+	return Spec{Chains: []string{"eth", "bsc", "tron"}, ModChains: []string{"eth", "bsc"}, ExtChains: []string{"eth"}, Mod2: []string{"eth"}, Mod2Denom: denom}
+}
+
+// caseVariantOps: token 3 is the second module-owned pair; bridged in, converted to ERC-20 and back, sent out, next to the native coin
+func caseVariantOps() []Op {
+	return []Op{
+		{K: "SendToFx", C: 1, T: 3, A: 100, X: 5000},
+		{K: "ConvertCoin", T: 3, A: 100, B: 100, X: 1200},
+		{K: "ConvertCoin", T: 0, A: 100, B: 100, X: 700},
+		{K: "ConvertCoin", T: 3, A: 100, B: 101, X: 300},
+		{K: "ConvertERC20", T: 3, A: 100, B: 100, X: 1000},
+		{K: "SendToFx", C: 1, T: 3, A: 102, X: 400, Tgt: 1},
+		{K: "PreCrossChain", C: 1, T: 3, A: 101, X: 200, Y: 3},
+		{K: "SendToExternal", C: 1, T: 3, A: 100, X: 500, Y: 5},
+		{K: "BridgeCallIn", C: 1, S: 103, To: 101, B: 101, Toks: [][2]int64{{3, 250}}, Flag: true},
+		{K: "ConvertERC20", T: 3, A: 101, B: 101, X: 350},
+		{K: "ConvertERC20", T: 0, A: 100, B: 100, X: 700},
+		{K: "BankSend", T: 3, Src: 0, A: 100, B: 103, X: 10},
+	}
 }
 
 // falseTokenOps: the externally-owned token signals failure by returning false (users hold 20000 each): amounts above the
@@ -354,8 +392,13 @@ func pickSpec(r *lib.Rand) Spec {
 	if len(sp.ExtChains) > 2 {
 		sp.ExtChains = sp.ExtChains[:2]
 	}
-	if r.Chance(25) {
+	if r.Chance(30) {
 		sp.Mod2 = sub("", 1)
+		// its base denom: half of the time a case variant / near-miss of a special denom (the native coin, its wrapper, another
+		// registered denom, a bridge denomination)
+		if r.Chance(50) {
+			sp.Mod2Denom = []string{"fx", "Fx", "fX", "FXX", "wfx", "WFX", "Usdt", "EXT", "@alias"}[r.Pick(9)]
+		}
 	}
 	sp.ExtFalse = r.Chance(35)
 	return sp
